@@ -173,3 +173,13 @@ Theorem C05_source_tables :
   (0 < so_id_len)%nat.
 Proof. exact source_tables. Qed.
 Print Assumptions C05_source_tables.
+
+(* SendIQ / SendMessage / SendPresence (and their Element / Encode variants)
+   hand SendElement the caller's start element with nothing changed but the
+   unqualified id: every other attribute is kept, in order, and afterwards
+   there is a non-empty unqualified id (the one the response is tracked by). *)
+Theorem C05_sendx_touches_only_the_id : forall a newid,
+  filter (fun x => negb (plain_is s_id x)) (fill_id a newid) = filter (fun x => negb (plain_is s_id x)) a /\
+  (newid <> [] -> has_nonempty s_id (fill_id a newid) = true).
+Proof. intros a newid. split; [apply fill_id_others|apply fill_id_has_id]. Qed.
+Print Assumptions C05_sendx_touches_only_the_id.
